@@ -159,13 +159,20 @@ def parseUnsigned (b maxv : Nat) (s : List Char) : Option Nat :=
   | '+' :: rest => (match rest with | [] => none | _ => parseDigits b maxv rest 0)
   | _ => parseDigits b maxv s 0
 
+/-- Splits at the first `'-'`: the text before it, and the text after it if there is one. -/
+def breakDash : List Char → List Char × Option (List Char)
+  | [] => ([], none)
+  | c :: cs =>
+    if c = '-' then ([], some cs)
+    else ((c :: (breakDash cs).1), (breakDash cs).2)
+
 /-- `s.splitn(n + 1, '-')`. -/
 def splitn : Nat → List Char → List (List Char)
   | 0, s => [s]
   | n + 1, s =>
-    match s.span (· ≠ '-') with
-    | (a, []) => [a]
-    | (a, _ :: rest) => a :: splitn n rest
+    match breakDash s with
+    | (a, none) => [a]
+    | (a, some rest) => a :: splitn n rest
 
 inductive ParseRes where
   | ok (t : Nat) | invalid | panic
